@@ -240,7 +240,7 @@ def skeleton(spec):
             return f"!{sk(c[1])}"
         return f"{k}:{c[1]}[{sk(c[2])}]"
 
-    doms = ",".join(f"{v['name']}:{v['type']}{min(len(v['dom']), 3)}{v['kind'][0]}" for v in spec["vars"])
+    doms = ",".join(f"{v['name']}:{v['type']}{min(len(v.get('vals', v.get('dom'))), 3)}{v['kind'][0]}" for v in spec["vars"])
     der = ",".join(f"{d['name']}={d['kind']}" for d in spec.get("derived", []))
     return f"{spec['mode']}|{doms}|{der}|{sk(spec['cond']) if spec.get('cond') else '-'}|" + ",".join(
         sk_t(t) for t in spec["select"])
@@ -261,13 +261,14 @@ def build(spec, m, objs=None, domain_factory=None):
     V = {}
 
     def mk_domain(v):
-        items = [objs[i] for i in v["dom"]]
+        items = list(v["vals"]) if v["type"] == "int" else [objs[i] for i in v["dom"]]
         if domain_factory is not None:
             return domain_factory(v, items)
         return iter(items) if v["kind"] == "gen" else items
 
     def mk_var(v):
-        return E.let(getattr(m, v["type"]), mk_domain(v), name=v["name"])
+        T = int if v["type"] == "int" else getattr(m, v["type"])
+        return E.let(T, mk_domain(v), name=v["name"])
 
     def bt(t):
         k = t[0]
@@ -410,6 +411,8 @@ def oracle(spec, m, objs=None, mode="total", unknown_vars=()):
                     out.append(o)
             return out
         v = base[name]
+        if v["type"] == "int":
+            return list(v["vals"])
         T = getattr(m, v["type"])
         return [objs[i] for i in v["dom"] if isinstance(objs[i], T)]
 
@@ -598,6 +601,10 @@ def empty_range_vars(spec, m, objs=None):
     out = set()
     allv = list(spec["vars"]) + [d["var"] for d in spec.get("derived", []) if d["kind"] == "sub"]
     for v in allv:
+        if v["type"] == "int":
+            if not v["vals"]:
+                out.add(v["name"])
+            continue
         T = getattr(m, v["type"])
         if not any(isinstance(objs[i], T) for i in v["dom"]):
             out.add(v["name"])
